@@ -202,10 +202,15 @@ static size_t build_text(uint8_t* buf, size_t cap) {
     return o;
   }
   if (fam == 4) {
-    // container with k scalar children, each one symbolic byte drawn from digits / a fixed literal; array or object
+    // container with k scalar children, each one symbolic non-zero digit; array or object
     size_t k = verif_param(2); long obj = verif_param(3); long nest = verif_param(4);
-    uint8_t d[64]; verif_symbolic(d, k, "digits");
-    for (size_t i = 0; i < k; i++) verif_assume(ref::is_dig(d[i]));
+    // children are single non-zero digits; the first, the 16th/17th and the last are symbolic, the others fixed (the copy
+    // arithmetic under test depends on the count, and a symbolic '0' would fork every child)
+    uint8_t d[64]; uint8_t sy[4]; verif_symbolic(sy, 4, "digits");
+    for (size_t i = 0; i < 4; i++) verif_assume(sy[i] >= '1' && sy[i] <= '9');
+    for (size_t i = 0; i < k; i++) d[i] = '1' + (i % 9);
+    if (k) { d[0] = sy[0]; d[k - 1] = sy[1]; }
+    if (k > 16) { d[15] = sy[2]; d[16] = sy[3]; }
     if (nest) buf[o++] = '[';
     buf[o++] = obj ? '{' : '[';
     for (size_t i = 0; i < k; i++) {
